@@ -2139,7 +2139,28 @@ fn analyze_structural(
 				location,
 			}
 		}
-		Err(poison) => Expression::Poison(poison),
+		Err(poison) =>
+		{
+			// Keep the members, because the error that poisoned
+			// the structure might be in the value of one of them.
+			let members = members
+				.into_iter()
+				.map(|member| {
+					typer.contextual_type = None;
+					let expression = member.expression.analyze(typer);
+					MemberExpression {
+						name: member.name,
+						offset: member.offset,
+						expression,
+					}
+				})
+				.collect();
+			Expression::Structural {
+				members,
+				structural_type: Err(poison),
+				location,
+			}
+		}
 	}
 }
 
